@@ -7,7 +7,7 @@ property quick check against the changed tree; revert; write patch.diff, demo.py
 import json, os, shutil, subprocess, sys
 prop, outdir, m = sys.argv[1:4]
 fast = "--fast" in sys.argv
-wt = f"/tmp/seedwork/wt_{prop}"
+wt = os.environ.get("SEED_WT") or f"/tmp/seedwork/wt_{prop}"
 diff, demo, info = f"{outdir}/{m}.diff", f"{outdir}/demo_{m}.py", f"{outdir}/{m}.json"
 def run(cmd, **kw):
     return subprocess.run(cmd, capture_output=True, text=True, **kw)
